@@ -150,21 +150,36 @@ fn check(case: &Case, obs: &mut Obs) -> Verdict {
         Case::Text { case, n } => {
             let c = case;
             let cfg = config(c.alg);
+            // a history of calls on ONE diff object: group with another radius first, render a
+            // unified diff with a third one, then group with n (twice); every answer is judged on
+            // its own, so a result may not depend on what was asked before
+            let pre = [0usize, 1, 2, 3, 5, 1000, usize::MAX, *n][(c.opt % 8) as usize];
+            let pre2 = [1usize, 0, 3, 0, 2, 0, 1, 4][(c.opt % 8) as usize];
             let r = guard(|| {
                 if c.use_bytes() {
                     let d = diff_bytes(&cfg, c.tok, &c.old.0, &c.new.0);
-                    (d.ops().to_vec(), d.grouped_ops(*n))
+                    let g0 = d.grouped_ops(pre);
+                    let _ = d.unified_diff().context_radius(pre2).to_string();
+                    (d.ops().to_vec(), g0, d.grouped_ops(*n), d.grouped_ops(*n))
                 } else {
                     let d = diff_str(&cfg, c.tok, c.old.as_str().unwrap(), c.new.as_str().unwrap());
-                    (d.ops().to_vec(), d.grouped_ops(*n))
+                    let g0 = d.grouped_ops(pre);
+                    let _ = d.unified_diff().context_radius(pre2).to_string();
+                    (d.ops().to_vec(), g0, d.grouped_ops(*n), d.grouped_ops(*n))
                 }
             });
-            let (ops, groups) = match r {
+            let (ops, g0, groups, again) = match r {
                 Ok(x) => x,
                 Err(p) => return Verdict::Fail(format!("TextDiff::grouped_ops: {}", p)),
             };
+            if let Err(m) = judge_groups(&ops, pre, &g0) {
+                return Verdict::Fail(format!("TextDiff::grouped_ops({}): {}", pre, m));
+            }
             if let Err(m) = judge_groups(&ops, *n, &groups) {
-                return Verdict::Fail(format!("TextDiff::grouped_ops: {}", m));
+                return Verdict::Fail(format!("TextDiff::grouped_ops({}) after grouped_ops({}) and a unified diff with radius {} on the same diff: {}", n, pre, pre2, m));
+            }
+            if again != groups {
+                return Verdict::Fail(format!("TextDiff::grouped_ops({}) called twice gives {:?} and {:?}", n, groups, again));
             }
             obs.nontrivial = ops.iter().filter(|o| !is_eq(o)).count() >= 2;
             obs.class("real diff: TextDiff::grouped_ops");
@@ -304,7 +319,7 @@ impl Prop for C12 {
     type Case = Case;
     const ID: &'static str = "C12";
     fn rule() -> String {
-        "cases = Ops(valid alternating op list with arbitrary run lengths biased to {n, 2n, 2n+1, 2n+2, n+1, 1}, optional leading/trailing Equal, non-zero start offsets; n in 0..6 | 10 | 1000) | Real(sequence diff through Capture::into_grouped_ops and group_diff_ops) | Text(TextDiff::grouped_ops); enumeration of all alternating lists with few changes, Equal lengths 1..=5, n in 0..=2. Oracle: flattened non-Equal ops == input non-Equal ops; no all-Equal group; edge context <= n and interior runs <= 2n; equality with a reference grouping written from the statement (modulo zero-length Equal ops, which the pinned code emits for n=0 and the statement neither requires nor forbids). Non-trivial = >= 2 changes and (synthetic) an Equal run of length n, 2n or 2n+1; distinct = distinct serialized case.".into()
+        "cases = Ops(valid alternating op list with arbitrary run lengths biased to {n, 2n, 2n+1, 2n+2, n+1, 1}, optional leading/trailing Equal, non-zero start offsets; n in 0..6 | 10 | 1000) | Real(sequence diff through Capture::into_grouped_ops and group_diff_ops) | Text(TextDiff::grouped_ops as a call history on one diff object: grouped_ops(other radius), a unified diff with a third radius, grouped_ops(n) twice, each answer judged on its own); enumeration of all alternating lists with few changes, Equal lengths 1..=5, n in 0..=2. Oracle: flattened non-Equal ops == input non-Equal ops; no all-Equal group; edge context <= n and interior runs <= 2n; equality with a reference grouping written from the statement (modulo zero-length Equal ops, which the pinned code emits for n=0 and the statement neither requires nor forbids). Non-trivial = >= 2 changes and (synthetic) an Equal run of length n, 2n or 2n+1; distinct = distinct serialized case.".into()
     }
     fn assumptions() -> Vec<String> {
         vec!["input lists are alternating (the domain the property quantifies over); zero-length Equal ops in the output are tolerated".into()]
